@@ -120,6 +120,7 @@ func Plan(out string, seed uint64, tier string, scenario string, count int, epoc
 		if !quick && scenario == "" {
 			pr.CommitteeDrop = n == "basic"
 			pr.DepositFork = i%6 == 1
+			pr.SyncSeat = n == "withdrawals" || n == "all_ops_one_block"
 			if i%12 == 10 {
 				pr.ForkBias = "phase0long"
 				pr.Phase0Leak = true
@@ -149,12 +150,14 @@ func Plan(out string, seed uint64, tier string, scenario string, count int, epoc
 				pr.ForkBias = "early"
 				pr.ZeroHashMerge = 1
 				pr.DepositFork = true
+				pr.SyncSeat = true
+				pr.RetryUntil = "deneb.topup_zero_balance_nonparticipating_sync_member"
 			case 4:
 				// four phase0 epochs with a leak, altair on a sync-period boundary
 				pr.ForkBias = "phase0long"
 				pr.Phase0Leak = true
 				pr.LowBalances = true
-				pr.RetryUntil = "sync_sampling_wrapped_with_rejections,proposer_sampling_rejections_in_a_row"
+				pr.RetryUntil = "sync_sampling_wrapped_with_rejections,proposer_sampling_rejections_in_a_row,sync_sampling_sensitive_to_effbal_update_capella"
 				if pr.Epochs < 9 {
 					pr.Epochs = 9
 				}
@@ -168,9 +171,9 @@ func Plan(out string, seed uint64, tier string, scenario string, count int, epoc
 	}
 	if scenario == "" {
 		// C13: genesis-only directories over three presets (minimal + two tiny)
-		ng := 9
+		ng := len(GenesisKinds)
 		if !quick {
-			ng = 63
+			ng = 7 * len(GenesisKinds)
 		}
 		for k := 0; k < 3; k++ {
 			r := master.Fork()
@@ -298,6 +301,13 @@ func CLI(args []string) int {
 // RequiredQuick: counters (summary.json: per_fork.<fork>.<k> for "<fork>.<k>", else counts.<k>) that must be non-zero in
 // every quick run.
 var RequiredQuick = []string{
+	// round 9
+	"aslash_overlapping_pairs_total", "altair.att_double_vote_wrong_target_first", "bellatrix.att_double_vote_wrong_target_first",
+	"capella.att_double_vote_wrong_target_first", "deneb.topup_zero_balance_nonparticipating_sync_member",
+	"sync_sampling_sensitive_to_effbal_update_capella", "sibling_block_same_new_deposit",
+	"genesis_case_zeroamount", "validators_added_with_zero_amount", "topup_invalid_sig_credited_after_zero_amount_registration",
+	"engine_fault.bellatrix.ctxerror", "engine_fault.capella.ctxerror", "engine_fault.deneb.ctxerror",
+	"engine_fault.bellatrix.ctxcanceled",
 	// round 8
 	"sync_sampling_wrapped_with_rejections", "proposer_sampling_rejections_in_a_row",
 	// round 7
@@ -413,6 +423,9 @@ func Summarize(results []ChainResult, seed uint64, tier string, secs float64) ma
 			}
 		}
 		return other[k]
+	}
+	for _, f := range ForkNames {
+		other["aslash_overlapping_pairs_total"] += perFork[f]["aslash_overlapping_pairs"]
 	}
 	for _, k := range RequiredQuick {
 		if get(k) == 0 {
